@@ -53,20 +53,7 @@ func c01(c *q.Ctx) {
 		c.StoreIs(do, "UtxoItem.Amount", "big.NewInt(0){SetBytes(p1.TxOutputs[].Amount)}", 1, "a created output carries the transaction's amount")
 		c.Gate(do, "XModel.DoTx", q.ToSuccess(), q.Opt{})
 	}
-	// fee outputs: payFee <-> undoPayFee, keyed by the block proposer
-	pf := c.Fn(st + "(*State).payFee")
-	upf := c.Fn(st + "(*State).undoPayFee")
-	keepFee := func(g q.Cond) bool {
-		return !strings.Contains(g.Canon, "len(") && !strings.Contains(g.Canon, "#1") && strings.Contains(g.Canon, "p1.")
-	}
-	c.Inverse(pf, upf,
-		[]q.EffectSig{{Spec: "Batch.Put", Kind: "row+", KeyArgs: []int{0}}, {Spec: "UtxoCache.Insert", Kind: "cache+", KeyArgs: []int{0, 1}}, {Spec: "UtxoVM.AddBalance", Kind: "bal+", KeyArgs: []int{0, 1}}},
-		[]q.EffectSig{{Spec: "Batch.Delete", Kind: "row+", KeyArgs: []int{0}}, {Spec: "UtxoCache.Remove", Kind: "cache+", KeyArgs: []int{0, 1}}, {Spec: "UtxoVM.SubBalance", Kind: "bal+", KeyArgs: []int{0, 1}}},
-		keepFee, nil, nil, 3)
-	if pf != nil {
-		c.EffectExists(pf, "Batch.Put", 0, "utxo.GenUtxoKeyWithPrefix(p3.Proposer,p1.Txid,#i)", []q.Cond{{Canon: "bytes.Equal(p1.TxOutputs[].ToAddr,\"$\")", Sense: true}}, "the fee output is materialised for the block proposer under the transaction's own id and offset")
-		c.StoreIs(pf, "UtxoItem.Amount", "big.NewInt(0){SetBytes(p1.TxOutputs[].Amount)}", 1, "fee output amount is the placeholder output's amount")
-	}
+	feeInverse(c)
 
 	// ext (key/value) model: updateExtUtxo <-> UndoTx
 	up := c.Fn(xm + "(*XModel).updateExtUtxo")
@@ -186,4 +173,24 @@ func c01(c *q.Ctx) {
 		c.ArgIs(wk, "State.procUndoBlkForWalk", 2, "*RollBackUnconfirmedTx(p0)#0", 1, "transactions already undone with the pool are not undone twice")
 		c.ArgIs(wk, "State.procTodoBlkForWalk", 1, "*FindUndoAndTodoBlocks(*)#1", 1, "todo list from the ledger")
 	}
+}
+
+// feeInverse: payFee <-> undoPayFee are exact inverses, keyed by the block proposer (shared by C01 and C02).
+func feeInverse(c *q.Ctx) {
+	const st = "bcs/ledger/xledger/state::"
+	// fee outputs: payFee <-> undoPayFee, keyed by the block proposer
+	pf := c.Fn(st + "(*State).payFee")
+	upf := c.Fn(st + "(*State).undoPayFee")
+	keepFee := func(g q.Cond) bool {
+		return !strings.Contains(g.Canon, "len(") && !strings.Contains(g.Canon, "#1") && strings.Contains(g.Canon, "p1.")
+	}
+	c.Inverse(pf, upf,
+		[]q.EffectSig{{Spec: "Batch.Put", Kind: "row+", KeyArgs: []int{0}}, {Spec: "UtxoCache.Insert", Kind: "cache+", KeyArgs: []int{0, 1}}, {Spec: "UtxoVM.AddBalance", Kind: "bal+", KeyArgs: []int{0, 1}}},
+		[]q.EffectSig{{Spec: "Batch.Delete", Kind: "row+", KeyArgs: []int{0}}, {Spec: "UtxoCache.Remove", Kind: "cache+", KeyArgs: []int{0, 1}}, {Spec: "UtxoVM.SubBalance", Kind: "bal+", KeyArgs: []int{0, 1}}},
+		keepFee, nil, nil, 3)
+	if pf != nil {
+		c.EffectExists(pf, "Batch.Put", 0, "utxo.GenUtxoKeyWithPrefix(p3.Proposer,p1.Txid,#i)", []q.Cond{{Canon: "bytes.Equal(p1.TxOutputs[].ToAddr,\"$\")", Sense: true}}, "the fee output is materialised for the block proposer under the transaction's own id and offset")
+		c.StoreIs(pf, "UtxoItem.Amount", "big.NewInt(0){SetBytes(p1.TxOutputs[].Amount)}", 1, "fee output amount is the placeholder output's amount")
+	}
+
 }
